@@ -392,8 +392,14 @@ func checkC17(c *ctx) {
 			c.Case(fmt.Sprintf("merge-%d-%d-%d", i, bufSize, k), k > 0 && k < len(good))
 			c.Count("merge_faults")
 			bad := ""
+			// (the output of a merge with data in several sections varies by a few bytes from run to
+			// run - sections are written in map order, offsets are varints - so near the end of the
+			// file the recorded write sizes are only approximately those of this run: a success is
+			// judged by the file produced, a failure the model does not predict needs a margin)
 			switch {
-			case (merr != nil) != mErr:
+			case merr == nil && mErr && k < len(good)-64:
+				bad = fmt.Sprintf("Merge returned error=%v, the model says error=%v", merr, mErr)
+			case merr != nil && !mErr && k >= len(good)+64:
 				bad = fmt.Sprintf("Merge returned error=%v, the model says error=%v", merr, mErr)
 			case merr != nil && exists(path):
 				bad = fmt.Sprintf("Merge returned an error (%v) but left a file at the path", merr)
@@ -401,7 +407,9 @@ func checkC17(c *ctx) {
 				bad = "Merge returned an error together with doc-number maps"
 			case merr == nil:
 				got, _ := os.ReadFile(path)
-				if p := parseMergedAgainst(c, got, mspec, allParts); p != "" {
+				if len(got) > k {
+					bad = fmt.Sprintf("Merge reported success with a file of %d bytes above the limit", len(got))
+				} else if p := parseMergedAgainst(c, got, mspec, allParts); p != "" {
 					bad = "Merge reported success but the file does not decode to the merged content: " + p
 				}
 			}
